@@ -10,6 +10,7 @@ import (
 	metav1 "k8s.io/apimachinery/pkg/apis/meta/v1"
 
 	v1 "sigs.k8s.io/karpenter/pkg/apis/v1"
+	"sigs.k8s.io/karpenter/pkg/apis/v1alpha1"
 	"sigs.k8s.io/karpenter/pkg/cloudprovider"
 	sched "sigs.k8s.io/karpenter/pkg/controllers/provisioning/scheduling"
 	"sigs.k8s.io/karpenter/pkg/operator/options"
@@ -163,6 +164,9 @@ func genOffering(r *kit.Rand, idx int) *cloudprovider.Offering {
 		labels[tierKey] = "gold" // not well-known: compatible only with requirements that define the key
 	}
 	o.Requirements = scheduling.NewLabelRequirements(labels)
+	if r.Chance(1, 10) { // a NodeOverlay replaced the price (absolute value: stays dyadic)
+		o.ApplyPriceOverlay(kit.Pick(r, []string{"0.75", "0.125", "4"}))
+	}
 	return o
 }
 
@@ -194,6 +198,9 @@ func genCatalog(r *kit.Rand, n int) []*cloudprovider.InstanceType {
 			reqs = append(reqs, scheduling.NewRequirement(familyKey, corev1.NodeSelectorOpIn, fam))
 		}
 		it.Requirements = scheduling.NewRequirements(reqs...)
+		if r.Chance(1, 10) {
+			it.ApplyCapacityOverlay(corev1.ResourceList{corev1.ResourceMemory: resource.MustParse("5Gi")})
+		}
 		its[i] = it
 	}
 	return its
@@ -432,7 +439,23 @@ type tCase struct {
 
 // emitToNodeClaim records one ToNodeClaim observation: the claim's requirements and options before the call, and the
 // instance-type requirement of the emitted NodeClaim.
-func emitToNodeClaim(c *kit.Ctx, kind string, gRq string, jRq []jReq, gIn string, jIn []jIT, nIn int, n int, full []string, nc *v1.NodeClaim) {
+func emitToNodeClaim(c *kit.Ctx, kind string, gRq string, jRq []jReq, gIn string, jIn []jIT, nIn int, n int, sorted []*cloudprovider.InstanceType, nc *v1.NodeClaim) {
+	full := names(sorted)
+	// overlay annotations: set exactly when one of the instance types that are sent carries an overlay
+	wantPrice, wantCap := false, false
+	for i, it := range sorted {
+		if i < n {
+			wantPrice = wantPrice || it.IsPricingOverlayApplied()
+			wantCap = wantCap || it.IsCapacityOverlayApplied()
+		}
+	}
+	gotPrice := nc.Annotations[v1alpha1.PriceOverlayAppliedAnnotationKey] == "true"
+	gotCap := nc.Annotations[v1alpha1.CapacityOverlayAppliedAnnotationKey] == "true"
+	c.Count(fmt.Sprintf("to-nodeclaim:overlay-annotations:price=%v,capacity=%v", gotPrice, gotCap))
+	if gotPrice != wantPrice || gotCap != wantCap {
+		c.Fail(c.NextID(), fmt.Sprintf("ToNodeClaim overlay annotations price=%v capacity=%v, expected %v %v for the first %d of %v", gotPrice, gotCap, wantPrice, wantCap, n, full),
+			"", tCase{Kind: kind, Reqs: jRq, Types: jIn, MaxTypes: n, Full: full})
+	}
 	var sent []string
 	op := "absent"
 	var mv *int
@@ -498,7 +521,7 @@ func partToNodeClaim(c *kit.Ctx) {
 			keep := minKeys(nct.Requirements)
 			gRq, jRq, gIn, jIn := gReqs(nct.Requirements, nil), jReqs(nct.Requirements, nil), gITs(its, keep), jITs(its, keep)
 			nc := nct.ToNodeClaim()
-			emitToNodeClaim(c, kind, gRq, jRq, gIn, jIn, len(its), n, names(its), nc)
+			emitToNodeClaim(c, kind, gRq, jRq, gIn, jIn, len(its), n, its, nc)
 		}
 	}
 }
